@@ -711,7 +711,7 @@ pub fn judge_tcp_lines(lines: &[String], chunk_seed: u32) -> Result<(), String> 
             stop_ignored = true;
             let _ = stream.write_all(b"cmd:stop\n");
         }
-        if probed && !stop_ignored && syncs_after_probe >= 40 {
+        if probed && !stop_ignored && syncs_after_probe >= 100 {
             deaf = true;
             break;
         }
